@@ -300,7 +300,7 @@ def run(ctx):
     files = []
 
     def bytesio(I, *a, **k):
-        f = ExtV("io.BytesIO", methods={"write": lambda I_, f_, data: f_.attrs["events"].append(data), "getvalue": lambda I_, f_: Seq(list(f_.attrs["events"]), "list"), "__strict__": True}, attrs={"events": []})
+        f = ExtV("io.BytesIO", methods={"write": lambda I_, f_, data: f_.attrs["events"].append(bytes(data) if isinstance(data, bytearray) else data), "getvalue": lambda I_, f_: Seq(list(f_.attrs["events"]), "list"), "__strict__": True}, attrs={"events": []})
         files.append(f)
         return f
 
@@ -382,6 +382,9 @@ def run(ctx):
                     why = f"STOP is not the last thing written: the stream ends with {_brief(stream[-24:])}"
                 elif p_eff >= 2 and not stream.startswith(header):
                     why = f"the stream does not start with the protocol header: {_brief(stream[:24])}"
+                    if stream.startswith(b"BYTES8:"):
+                        why += (" - the payload of 64 KiB, which the recursive pickler writes straight to the file (pickle._Framer.write_large_bytes), reached the file ahead of operations that "
+                                "precede it in the stream: what goes through write() is held back somewhere on its way to the file")
                 elif body != want:
                     k = next((i for i, (x, y) in enumerate(zip(body, want)) if x != y), min(len(body), len(want)))
                     why = (f"the operations reach the file in another order than the recursive pickler produces: from byte {k} the stream reads {_brief(body[max(0, k - 12):k + 60])}, "
